@@ -38,6 +38,8 @@ def acode(a):
              (A.DeviceBroadcast, 7, None), (A.DeviceBroadcastUnaddressed, 8, None)]
     for cls, code, attr in table:
         if type(a) is cls:
+            if sum(1 for c2, _, _ in table if isinstance(a, c2)) != 1:
+                return -3       # "exactly one kind": the object also passes for another kind of address (isinstance)
             n = getattr(a, attr) if attr else 0
             return code * 256 + n if isinstance(n, int) and 0 <= n < 256 else -2
     return -1
@@ -52,6 +54,8 @@ def icode(i):
              (A.InstanceBroadcast, 8), (A.FeatureDevice, 9), (A.Device, 10), (A.ReservedInstance, 11)]
     for cls, code in table:
         if type(i) is cls:
+            if sum(1 for c2, _ in table if isinstance(i, c2)) != 1:
+                return -3       # "exactly one kind": the object also passes for another instance kind (isinstance)
             n = i.value if code <= 6 or code == 11 else 0
             return code * 256 + n if isinstance(n, int) and 0 <= n < 256 else -2
     return -1
